@@ -231,7 +231,7 @@ static std::vector<Cfg> unit_cfgs(const U0 &u){
     const double ta[3] = {-0.7, 0.4, 1.0}, tb[3] = {2.1, 3.0, 1.5}, tbu[3] = {2.0, 0.5, 1.25};
     auto settr = [&](Cfg &c){ c.ta.assign(ta, ta + d); c.tb.assign(tb, tb + d); if (domkind(u.rule) == K_LAGUERRE || domkind(u.rule) == K_HERMITE) c.tb.assign(tbu, tbu + d); };
     if (u.fam == F_LOCALP || u.fam == F_WAVELET){
-        int maxdepth = (d == 1) ? (th ? 6 : 5) : (d == 2 ? (th ? 4 : 3) : 3); if (u.fam == F_WAVELET) maxdepth = (d == 1) ? 4 : (d == 2 ? (th ? 3 : 2) : 1);
+        int maxdepth = (d == 1) ? (th ? 6 : 5) : (d == 2 ? (th ? 4 : 3) : (th ? 3 : 2)); if (u.fam == F_WAVELET) maxdepth = (d == 1) ? 4 : (d == 2 ? (th ? 3 : 2) : 1);
         std::vector<std::vector<int>> LIM = {{}}; if (d >= 2 && th){ std::vector<int> l(d, 3); l[0] = 1; LIM.push_back(l); }
         for(int depth=0; depth<=maxdepth; depth++) for(auto &lim : LIM) for(int tr=0; tr<2; tr++){
             Cfg c; c.fam = u.fam; c.rule = u.rule; c.dims = d; c.outs = 2; c.depth = depth; c.order = u.order; c.limits = lim; if (tr) settr(c); out.push_back(c); }
@@ -263,6 +263,11 @@ static std::vector<UnitDef> units(){
     for(int d=1; d<=maxd; d++) u.push_back({F_FOURIER, rule_fourier, d, 0});
     for(auto r : {rule_localp, rule_semilocalp, rule_localp0, rule_localpb}) for(int order : {-1, 0, 1, 2, 3, 4, 5}) for(int d=1; d<=maxd; d++) u.push_back({F_LOCALP, r, d, order});
     for(int order : {1, 3}) for(int d=1; d<=maxd; d++) u.push_back({F_WAVELET, rule_wavelet, d, order});
+    if (!th){ // a 3-D slice in the quick tier (the Kronecker / DAG surplus paths of local grids switch at 3 dimensions)
+        u.push_back({F_GLOBAL, rule_clenshawcurtis, 3, 0}); u.push_back({F_GLOBAL, rule_gausslegendre, 3, 0}); u.push_back({F_SEQUENCE, rule_rleja, 3, 0}); u.push_back({F_FOURIER, rule_fourier, 3, 0});
+        for(int order : {-1, 1, 2, 3, 4}) u.push_back({F_LOCALP, rule_localp, 3, order});
+        u.push_back({F_LOCALP, rule_semilocalp, 3, 2}); u.push_back({F_LOCALP, rule_localp0, 3, 3}); u.push_back({F_LOCALP, rule_localpb, 3, 5}); u.push_back({F_WAVELET, rule_wavelet, 3, 1});
+    }
     std::vector<UnitDef> out;
     for(auto &x : u){ UnitDef ud; std::ostringstream nm; nm << famname(x.fam) << "/" << IO::getRuleString(x.rule) << "/d" << x.dims; if (x.fam == F_LOCALP || x.fam == F_WAVELET) nm << "/order" << x.order; ud.name = nm.str(); ud.cfgs = unit_cfgs(x); out.push_back(ud); }
     // longest units first
@@ -277,7 +282,7 @@ int main(int argc, char **argv){
     if (A.has("--replay")) return run_replay("C05", A.get("--replay"), HIST_ALL, explore_cfg);
     auto U = units();
     if (A.has("--list")){ size_t n = 0; for(auto &u : U){ printf("%s %zu\n", u.name.c_str(), u.cfgs.size()); n += u.cfgs.size(); } printf("total %zu\n", n); return 0; }
-    std::string bound = std::string("C05 lattice tier=") + g_tier + ": 5 families, local orders -1..5, wavelet orders 1,3, dims <= " + (g_tier == "thorough" ? "3" : "2") +
+    std::string bound = std::string("C05 lattice tier=") + g_tier + ": 5 families, local orders -1..5, wavelet orders 1,3, dims <= " + (g_tier == "thorough" ? "3" : "2 (+ a 3-D slice)") +
         ", 2 outputs, {canonical, linear transform}; histories load(member) | load(generic) + " + (g_tier == "thorough" ? "2" : "1") + " refinement round(s) + reload(member); 4 interior probes per state";
     run_all("C05", U, (int) A.geti("--workers", 8), bound, HIST_ALL, explore_cfg, 20.0);
     return 0;
